@@ -371,3 +371,56 @@ func VerifAdvEnfCapture(f func(*Conn)) (restore func()) {
 	}
 	return func() { newUClientConnection, newClientConnection = oldU, oldP }
 }
+
+// CIDState: the sequence number of the connection ID in use and the number of queued ones.
+func VerifAdvEnfCIDState(c *Conn) (active uint64, queued int) {
+	return c.connIDManager.activeSequenceNumber, len(c.connIDManager.queue)
+}
+
+func (v *VerifAdvEnfConn) CIDState() (uint64, int) { return VerifAdvEnfCIDState(v.C) }
+
+// ClientRotate makes the (not running) client do what it does right after the handshake:
+// switch to the next connection ID and retire the first one (connIDManager.Get after
+// SetHandshakeComplete). It reports whether a switch happened; nothing is changed otherwise.
+func (v *VerifAdvEnfConn) ClientRotate() bool {
+	m := v.C.connIDManager
+	if m.activeSequenceNumber != 0 || len(m.queue) == 0 {
+		return false
+	}
+	m.SetHandshakeComplete()
+	m.Get()
+	return m.activeSequenceNumber != 0
+}
+
+// VerifAdvEnfServerIssue makes a (server) connection issue n more connection IDs through its
+// own connIDGenerator (so they are routed), with the given Retire Prior To in the
+// NEW_CONNECTION_ID frames, and swallow the next dropNext NEW_CONNECTION_ID frames the
+// generator wants to send afterwards (the replacements it issues when the client retires:
+// a peer that has just added an ID on top must not replace the retired one as well).
+// Call only while the connection's goroutines are idle (synctest.Wait).
+func VerifAdvEnfServerIssue(c *Conn, n int, retirePriorTo uint64, dropNext int) error {
+	g := c.connIDGenerator
+	orig := c.queueControlFrame
+	g.queueControlFrame = func(f wire.Frame) {
+		if nf, ok := f.(*wire.NewConnectionIDFrame); ok {
+			nf.RetirePriorTo = retirePriorTo
+		}
+		orig(f)
+	}
+	for i := 0; i < n; i++ {
+		if err := g.issueNewConnID(); err != nil {
+			g.queueControlFrame = orig
+			return err
+		}
+	}
+	drop := dropNext
+	g.queueControlFrame = func(f wire.Frame) {
+		if _, ok := f.(*wire.NewConnectionIDFrame); ok && drop > 0 {
+			drop--
+			return
+		}
+		orig(f)
+	}
+	c.scheduleSending()
+	return nil
+}
